@@ -118,4 +118,66 @@ PROPS = {
             native("c16_io_faults", t=["secs=40", "lanes=6", "sink_rounds=600"], name="asan", flavour="asan", tiers=("thorough",)),
         ],
     },
+    "C06": {
+        "level": "exploration",
+        "assumptions": [
+            "guards of one kind are interchangeable, so the sequential enumeration drops them in LIFO order (symmetry reduction)",
+            "concurrent histories assert only what every linearization satisfies: exactly one append, not before the START of the drops it needs",
+        ],
+        "coverage_extra": {"quick": {"exhaustive": False}, "thorough": {"exhaustive": False}},
+        "legs": [
+            native("c06_append_on_drop", ["secs=8", "objects=5"], ["secs=120", "objects=6"]),
+            miri("c06_append_on_drop", 16, 64, [0, 1], [0, 1, 2, 3]),
+            native("c06_append_on_drop", t=["secs=40", "objects=4", "lanes=3"], name="tsan", flavour="tsan", tiers=("thorough",)),
+        ],
+    },
+    "C13": {
+        "level": "exploration",
+        "assumptions": [
+            "sequential op sequences are enumerated exhaustively up to the depth bound and completed by a fixed clean-up; concurrent histories assert only linearization-invariant facts (drop start/end tickets vs the append ticket)",
+        ],
+        "coverage_extra": {"quick": {"exhaustive": False}, "thorough": {"exhaustive": False}},
+        "legs": [
+            native("c13_slots", ["secs=8", "depth=7"], ["secs=100", "depth=8"]),
+            miri("c13_slots", 16, 64, [0, 1], [0, 1, 2, 3]),
+            native("c13_slots", t=["secs=40", "depth=5", "lanes=3"], name="tsan", flavour="tsan", tiers=("thorough",)),
+        ],
+    },
+    "C10": {
+        "level": "exploration",
+        "assumptions": [
+            "every input's distribution value is a unique id, so the aggregate an input contributed to is identified by the output alone",
+            "keep-last under concurrent producers is only required to be one of the inputs of that aggregate; with a known merge order it must be the last",
+            "termination of the worker thread is observed through Drop of a wrapper around the inner sink, decided by the progress watchdog plus the flush-call counter as evidence",
+        ],
+        "legs": [
+            native("c10_aggregation", ["secs=10"], ["secs=120"]),
+            miri("c10_aggregation", 4, 16, [0, 1], [0, 1, 2, 3]),
+            native("c10_aggregation", t=["secs=40", "lanes=3"], name="tsan", flavour="tsan", tiers=("thorough",)),
+        ],
+    },
+    "C11": {
+        "level": "exploration",
+        "assumptions": [
+            "the value an observation 'is' for a Repeated{total, n} source is total/n as computed in f64 (the same quantity every consumer of an Observation uses)",
+            "occurrence counts are kept below 2^40 so that midpoint*count stays exact for the width-1/2 buckets (beyond that a float artefact, not the library, could move an observation to the neighbouring bucket)",
+            "domain: finite, non-negative values below 2^43 as the statement says",
+        ],
+        "legs": [
+            native("c11_histograms", ["secs=8"], ["secs=100"]),
+            native("c11_histograms", t=["secs=30", "lanes=3"], name="tsan", flavour="tsan", tiers=("thorough",)),
+        ],
+    },
+    "C12": {
+        "level": "exploration",
+        "assumptions": [
+            "exact 1/rate is computed as a rational from the f32 bits; for 1/rate >= 2^53 '1/rate' means the correctly rounded double-precision quotient (doubles no longer resolve integers there; the statement's own threshold)",
+            "the random draw is recomputed by calling rand's own random::<f32>() on a replay of the scripted generator's state before the call",
+            "the congressional sampler's clock is not injectable: intervals are ended through the cfg(metrique_verif) trigger, which calls the real update_rates",
+        ],
+        "legs": [
+            native("c12_sampling", ["secs=8"], ["secs=30"], name="native"),
+            native("c12_sampling", t=["secs=90", "all_f32=1"], name="native-release-all-f32", flavour="release", tiers=("thorough",)),
+        ],
+    },
 }
